@@ -372,7 +372,14 @@ def update_parameters(json_object, parameters) -> None:
             if json_object['id'] in parameters:
                 # get rid of full, full_like, tensor...
                 for key in list(json_object.keys()).copy():
-                    if key not in ('id', 'type', 'dtype', 'nn'):
+                    if key not in (
+                        'id',
+                        'type',
+                        'dtype',
+                        'nn',
+                        'device',
+                        'requires_grad',
+                    ):
                         del json_object[key]
                 # set new tensor
                 json_object['tensor'] = parameters[json_object['id']]['tensor']
